@@ -13,7 +13,7 @@ RULE = (
     "Sampled: n <= 40 rows, 1-2 keys with nulls and any interleaving, n_arg from 0 to beyond the largest group "
     "(negative for nth), values as a 1-D array/Series of unique row ids or a 2-3 column collection whose first column "
     "is the row id (so every returned row is identified exactly), input index default / shuffled / duplicated / "
-    "string, sort on/off, keep_input_index=True.  Size tier: one group of 32_767, 32_768, 65_535, 65_536, 70_000 or "
+    "string, sort on/off, keep_input_index=True, optionally after an earlier groups / apply / size call on the same object.  Size tier: one group of 32_767, 32_768, 65_535, 65_536, 70_000 or "
     "200_000 rows interleaved with small groups, n_arg around those sizes.  Non-trivial = a group longer than n_arg "
     "and another shorter, interleaved.  Distinct = case hash."
 )
@@ -33,7 +33,8 @@ def case_strategy(draw, variant):
     extra = [draw(S.value_column(n, dtypes=("float64", "int64", "M8[ns]", "bool"), regime="exact", name=f"x{i}")) for i in range(ncols - 1)]
     return {"n": n, "keys": keys, "how": how, "narg": narg, "extra": extra, "sort": draw(st.sampled_from([True, True, False])),
             "vals_as": draw(st.sampled_from(["np", "series"])) if ncols == 1 else draw(st.sampled_from(["dict", "df", "list"])),
-            "index": draw(st.sampled_from(["default", "shuffled", "dup", "str", "range5"]))}
+            "index": draw(st.sampled_from(["default", "shuffled", "dup", "str", "range5"])),
+            "prior": draw(st.sampled_from(["none", "none", "groups", "apply", "size"]))}
 
 
 def expected_positions(how, narg, groups):
@@ -66,6 +67,13 @@ def run(case, keys_obj, n, labels, ctx_classes=None):
     else:
         values = [pd.Series(ids, index=index, name="id")] + [pd.Series(e, index=index, name=f"x{i}") for i, e in enumerate(extra)]
     gb = GroupBy(keys_obj, sort=case["sort"])
+    prior = case.get("prior", "none")
+    if prior == "groups":
+        gb.groups  # fills the cached group-sorted indexer: the selection must not depend on it
+    elif prior == "apply":
+        gb.apply(np.arange(n, dtype=float), np.max)
+    elif prior == "size":
+        gb.size()
     res = getattr(gb, how)(values, n=narg, keep_input_index=True)
     return res, index, ids, extra
 
@@ -130,7 +138,7 @@ def check(case, ctx):
     interleaved = len(groups) >= 2 and any(labels[i] is not None and labels[i + 1] is not None and labels[i] != labels[i + 1] for i in range(n - 1))
     nt = interleaved and any(s > a for s in sizes) and any(s <= a for s in sizes)
     ctx.seen("select", case, nt, [f"how:{case['how']}", f"index:{case['index']}", f"vals_as:{case['vals_as']}", f"sort:{case['sort']}",
-                                  f"nullkeys:{any(l is None for l in labels)}", f"neg:{case['narg'] < 0}"])
+                                  f"nullkeys:{any(l is None for l in labels)}", f"neg:{case['narg'] < 0}", f"prior:{case.get('prior')}"])
     if n == 0:
         return  # values of length 0 carry no rows to select; construction on empty input is not this property
     res, index, ids, extra = run(case, karg, n, labels)
